@@ -317,3 +317,54 @@ Definition find_sub (t : teal) (name : string) : option subroutine :=
 
 Definition called_subroutine (t : teal) (b : block) : option subroutine :=
   match exit_op t b with Some (ICallsub l) => find_sub t l | _ => None end.
+
+(* ---------------------------------------------------------------- _verify_version *)
+Fixpoint assoc_cls (c : string) (l : list (string * (string * N))) : option N :=
+  match l with [] => None | (_, (c', v)) :: t => if c' =? c then Some v else assoc_cls c t end.
+
+(* the field object of an instruction, with the kind (base class) it belongs to and its version *)
+Definition ins_field (i : instr) : option (string * N) :=
+  let txf (f : field) := match assoc_cls (fst f) tx_fields with
+                         | Some v => Some ("TransactionField", v)
+                         | None => option_map (fun v => ("TransactionField", v)) (assoc_cls (fst f) tx_array_fields) end in
+  match i with
+  | ITxn f | IGtxn _ f | IGtxns f => txf f
+  | IGlobal g => option_map (fun v => ("GlobalField", v)) (assoc_cls g global_fields)
+  | IOther c ps =>
+      let fld := match ps with [PField f] => Some f | [PInt _; PField f] => Some f | _ => None end in
+      match fld with
+      | None => None
+      | Some f =>
+          if c =? "AssetHoldingGet" then option_map (fun v => ("AssetHoldingField", v)) (assoc_cls (fst f) asset_holding_fields)
+          else if c =? "AssetParamsGet" then option_map (fun v => ("AssetParamsField", v)) (assoc_cls (fst f) asset_params_fields)
+          else if c =? "AppParamsGet" then option_map (fun v => ("AppParamsField", v)) (assoc_cls (fst f) app_params_fields)
+          else if c =? "AcctParamsGet" then option_map (fun v => ("AcctParamsField", v)) (assoc_cls (fst f) acct_params_fields)
+          else txf f
+      end
+  | _ => None
+  end.
+
+Inductive vflag := FlagIns | FlagField.
+
+Definition verify_ins (version : N) (i : instr) : option vflag :=
+  match ins_version i with
+  | Some iv =>
+      if N.ltb version iv then Some FlagIns
+      else match ins_field i with
+           | Some (kind, fv) =>
+               if existsb (String.eqb kind) version_checked_field_kinds && N.ltb version fv then Some FlagField else None
+           | None => None
+           end
+  | None => None
+  end.
+
+Definition verify_version (p : prog) (version : N) : list (nat * vflag) * bool :=
+  let flags := flat_map (fun i => match verify_ins version (i_op i) with Some fl => [(i_line i, fl)] | None => [] end) p in
+  let stateful := existsb (fun i => match ins_mode (i_op i) with Some MStateful => true | _ => false end) p in
+  let stateless := existsb (fun i => match ins_mode (i_op i) with Some MStateless => true | _ => false end) p in
+  (flags, stateful && stateless).
+
+Definition block_cost (t : teal) (b : block) : N :=
+  fold_left (fun acc k => match op_at (t_prog t) k with
+                          | Some i => match ins_cost (t_version t) i with Some c => (acc + c)%N | None => acc end
+                          | None => acc end) (b_ins b) 0%N.
